@@ -249,6 +249,10 @@ class E3:
             unl = ip.gset(s, "unlinked")
             self.rec("C07", "%s:exit[%s]:inserted-entries-linked" % (name, sig), not unl,
                      "when `%s` returns %s every entry it inserted into the cache's table has been linked into the list" % (name, sig), loc)
+            sw = ip.gset(s, "stale_write")
+            self.rec("C07", "%s:exit[%s]:no-write-through-stale-handle" % (name, sig), not sw,
+                     "on the way to `%s` returning %s nothing was written through a handle to an entry that may already have left its table "
+                     "(removed, evicted or relocated)" % (name, sig), loc, {"fields": sorted(sw)} if sw else None)
             l2l = ip.gset(s, "l2l")
             self.rec("C07", "%s:exit[%s]:no-link-into-unowned-table" % (name, sig), not l2l,
                      "when `%s` returns %s no link points into a table the cache does not own" % (name, sig), loc)
